@@ -39,6 +39,7 @@ const (
 	// the JSON -> GRL translation alone (no build): the translator is linear, so the open finding
 	// about the builder's cubic cost does not apply to it
 	c20JSONTranslate = 4
+	c20GRBThenGRL    = 5
 
 	c20AllocBase   = 64 << 20  // 64 MiB
 	c20AllocPerB   = 256 << 10 // 256 KiB per input byte
@@ -48,7 +49,9 @@ const (
 	c20MaxInputLen = 64 << 10
 )
 
-var c20TargetName = []string{"grl", "jsonrule", "jsonfact", "grb", "jsontranslate"}
+var c20TargetName = []string{"grl", "jsonrule", "jsonfact", "grb", "jsontranslate", "grb-then-grl"}
+
+const c20HandOverRule = `rule ZZHandOver "built after the load" salience 3 { when F.I64 > 1 && F.S == "x" then F.I64 = F.I64 + 1; Retract("ZZHandOver"); }`
 
 type c20Input struct {
 	Target int    `json:"target"`
@@ -390,6 +393,13 @@ func c20InnerLengths(b []byte) []int {
 
 func c20GRBStream(rt *rapid.T, paths []gen.PathInfo) ([]byte, []int) {
 	text := c17Doc(rt, paths, "")
+	switch rapid.IntRange(0, 5).Draw(rt, "grb_special") {
+	case 0:
+		// rules that mention no fact at all (the stored index sections are empty)
+		text = `rule V1 "no variable" salience 2 { when true then Retract("V1"); }` + "\n" + `rule V2 { when 1 + 2 > 2 && "a" == "a" then Log("x"); Complete(); }`
+	case 1:
+		text = `rule V0 { when Now().Year() > 2000 then Retract("V0"); }`
+	}
 	lib, err := obs.Build(text)
 	if err != nil {
 		lib, _ = obs.Build("rule A { when F.I64 > 1 then F.I64 = 0; }")
@@ -571,6 +581,11 @@ func c20GenInput0(rt *rapid.T, paths []gen.PathInfo, stCfg gen.StateCfg) c20Inpu
 	}
 	if mode == "valid" {
 		in.Data, in.Kind = valid, "valid"
+		if target == c20GRB && rapid.Bool().Draw(rt, "hand_over") {
+			// the loaded knowledge base is handed on to the GRL loader (valid streams only: what a corrupted
+			// but accepted stream does later is not this property's business)
+			in.Target = c20GRBThenGRL
+		}
 		return in
 	}
 	data := valid
@@ -614,7 +629,7 @@ func c20Describe(in c20Input) c20Replay {
 }
 
 func TestC20(t *testing.T) {
-	col := stats.New("C20", "four loaders - BuildRuleFromResource (GRL bytes), JSONResource.Load + build (JSON rule bytes), DataContext.AddJSON (JSON fact bytes), LoadKnowledgeBaseFromReader (binary stream) - are fed generated inputs: random bytes; valid inputs produced by the other checks' generators (grammar-rich GRL documents, JSON rules converted from typed trees, JSON fact documents, stored binary images of built knowledge bases); 1-3 structure-aware mutations of those (bit flips, boundary bytes, deletion, duplication, repetition, insertion, truncation, splicing, 8-byte boundary numbers, length-field edits at the binary format's field boundaries taken from the loader's own Read calls, edits of nested length fields (a length stored inside a length-prefixed blob), node-identifier swaps (a well-formed stream whose node references form cycles, dangle or name a node of another kind), token-level GRL mutations); and structural inputs (nesting, long flat chains, many rules, deep JSON). Every input is executed in a child process built from the current tree with an address-space limit of 3 GiB; the parent knows the culprit when the child dies or exceeds the hang guard. Oracle per input: no panic escapes the loader, the process survives, TotalAlloc grows by at most 64 MiB + 256 KiB per input byte (deterministic), wall time <= 20 s (three orders of magnitude above normal; hang guard only). Non-trivial: the loader got past its first validation step (returned success, or an error after structural parsing: GRL/JSON inputs that lex, binary streams with a valid version header). Distinct by input bytes.",
+	col := stats.New("C20", "the loaders - BuildRuleFromResource (GRL bytes), JSONResource.Load + build (JSON rule bytes), DataContext.AddJSON (JSON fact bytes), LoadKnowledgeBaseFromReader (binary stream; half of the valid streams are then handed on to the GRL loader and to NewKnowledgeBaseInstance, which must not panic either) - are fed generated inputs: random bytes; valid inputs produced by the other checks' generators (grammar-rich GRL documents, JSON rules converted from typed trees, JSON fact documents, stored binary images of built knowledge bases); 1-3 structure-aware mutations of those (bit flips, boundary bytes, deletion, duplication, repetition, insertion, truncation, splicing, 8-byte boundary numbers, length-field edits at the binary format's field boundaries taken from the loader's own Read calls, edits of nested length fields (a length stored inside a length-prefixed blob), node-identifier swaps (a well-formed stream whose node references form cycles, dangle or name a node of another kind), token-level GRL mutations); and structural inputs (nesting, long flat chains, many rules, deep JSON). Every input is executed in a child process built from the current tree with an address-space limit of 3 GiB; the parent knows the culprit when the child dies or exceeds the hang guard. Oracle per input: no panic escapes the loader, the process survives, TotalAlloc grows by at most 64 MiB + 256 KiB per input byte (deterministic), wall time <= 20 s (three orders of magnitude above normal; hang guard only). Non-trivial: the loader got past its first validation step (returned success, or an error after structural parsing: GRL/JSON inputs that lex, binary streams with a valid version header). Distinct by input bytes.",
 		"inputs whose longest operator/selector/parenthesis chain in one statement is >= 64 belong to the open finding about cubic build cost; generated chains stay <= 32 and are counted when a mutation exceeds the signature",
 		"time is not used as a correctness signal below the 20 s hang guard")
 	defer col.Flush()
@@ -669,7 +684,7 @@ func c20PastFirstStep(in c20Input) bool {
 		return ok
 	case c20JSONRule, c20JSONFact, c20JSONTranslate:
 		return json.Valid(in.Data)
-	case c20GRB:
+	case c20GRB, c20GRBThenGRL:
 		return len(in.Data) > 16 && bytes.Contains(in.Data[:min(len(in.Data), 64)], []byte("kb"))
 	}
 	return false
@@ -812,6 +827,19 @@ func c20InProcess(target int, data []byte) (status, detail string) {
 		lib := ast.NewKnowledgeLibrary()
 		if _, err := lib.LoadKnowledgeBaseFromReader(bytes.NewReader(data), true); err != nil {
 			return "error", "load"
+		}
+		return "ok", ""
+	case c20GRBThenGRL:
+		lib := ast.NewKnowledgeLibrary()
+		kb, err := lib.LoadKnowledgeBaseFromReader(bytes.NewReader(data), true)
+		if err != nil {
+			return "error", "load"
+		}
+		if err := builder.NewRuleBuilder(lib).BuildRuleFromResource(kb.Name, kb.Version, pkg.NewBytesResource([]byte(c20HandOverRule))); err != nil {
+			return "error", "build-after-load"
+		}
+		if _, err := lib.NewKnowledgeBaseInstance(kb.Name, kb.Version); err != nil {
+			return "error", "instance-after-load"
 		}
 		return "ok", ""
 	}
